@@ -43,6 +43,11 @@ type Solver struct {
 	Log       io.Writer
 	restarts  int
 	sinceNew  int
+	// XSample/XSink: second-solver cross-check of unsat verdicts. XSample is asked
+	// after every unsat answer; when it says yes the whole query (path condition
+	// and extra conjuncts) is rendered as a standalone script and handed to XSink.
+	XSample func() bool
+	XSink   func(script string)
 }
 
 func NewSolver(kind string, ctx *Ctx, timeoutMs int) (*Solver, error) {
@@ -238,6 +243,12 @@ func (s *Solver) CheckModel(pc []*Term, want []*Term, extra ...*Term) (Result, m
 		}
 	}
 	s.send("(pop 1)")
+	if res == Unsat && s.XSample != nil && s.XSink != nil && s.XSample() {
+		all := make([]*Term, 0, len(pc)+len(extra))
+		all = append(all, pc...)
+		all = append(all, extra...)
+		s.XSink(Script(s.ctx, all))
+	}
 	switch res {
 	case Sat:
 		s.NSat++
